@@ -24,6 +24,18 @@ var solvers = []solverSpec{
 	}},
 }
 
+// second-stage configurations, tried only when the first stage has not
+// discharged an obligation (z3's relevancy filter hides terms below
+// if-then-else heap merges from E-matching)
+var solvers2 = []solverSpec{
+	{"z3-5.1.0/relevancy=0", func(f string, t int) []string {
+		return []string{"z3-new", fmt.Sprintf("-T:%d", t), "smt.relevancy=0", "-smt2", f}
+	}},
+	{"z3-4.8.12/relevancy=0", func(f string, t int) []string {
+		return []string{"/usr/bin/z3", fmt.Sprintf("-T:%d", t), "smt.relevancy=0", "-smt2", f}
+	}},
+}
+
 type solveResult struct {
 	Status  string // unsat sat unknown timeout error
 	Solver  string
@@ -71,6 +83,10 @@ func runSolver(ctx context.Context, sp solverSpec, file string, timeoutS int) (s
 // solve races the solvers on one query; all=true waits for every solver
 // (thorough: two-solver agreement).
 func solve(dir, name, query string, timeoutS int, all bool) solveResult {
+	return solveWith(solvers, dir, name, query, timeoutS, all)
+}
+
+func solveWith(solvers []solverSpec, dir, name, query string, timeoutS int, all bool) solveResult {
 	file := filepath.Join(dir, name+".smt2")
 	if err := os.WriteFile(file, []byte(query), 0o644); err != nil {
 		return solveResult{Status: "error", Output: err.Error()}
@@ -172,6 +188,71 @@ func solveAll(dir string, vcs []*VC, timeoutS int, all bool, workers int) []*obR
 				to, al = 3, false
 			}
 			r := solve(dir, fmt.Sprintf("q%04d", k), q, to, al)
+			if r.Status != "unsat" && r.Status != "sat" && it.Class != "canary" {
+				// second stage: other solver configurations
+				to2 := to
+				if to2 < 20 {
+					to2 = 20
+				}
+				if r2 := solveWith(solvers2, dir, fmt.Sprintf("q%04d.s2", k), q, to2, false); r2.Status == "unsat" {
+					r2.Time += r.Time
+					r = r2
+				} else if sv := j.vc.splitVars; len(sv) > 0 {
+					// third stage: case split over the "this call is executed"
+					// conditions named by the contract's bindings; the cubes
+					// cover all cases, so the obligation holds iff every cube
+					// is unsatisfiable
+					if len(sv) > 4 {
+						sv = sv[:4]
+					}
+					n := 1 << len(sv)
+					type cr struct {
+						st   string
+						t    float64
+						who  string
+					}
+					res := make([]cr, n)
+					var cw sync.WaitGroup
+					for m := 0; m < n; m++ {
+						cw.Add(1)
+						go func(m int) {
+							defer cw.Done()
+							var lits []string
+							for i, v := range sv {
+								if (m>>i)&1 == 1 {
+									lits = append(lits, v)
+								} else {
+									lits = append(lits, "(not "+v+")")
+								}
+							}
+							cq := j.vc.query(j.index, "(assert (and "+strings.Join(lits, " ")+"))\n")
+							c1 := solve(dir, fmt.Sprintf("q%04d.c%d", k, m), cq, to, false)
+							if c1.Status != "unsat" {
+								c2 := solveWith(solvers2, dir, fmt.Sprintf("q%04d.c%d.s2", k, m), cq, to2, false)
+								c2.Time += c1.Time
+								c1 = c2
+							}
+							res[m] = cr{c1.Status, c1.Time, c1.Solver}
+						}(m)
+					}
+					cw.Wait()
+					allUnsat := true
+					var tmax float64
+					who := ""
+					for _, c := range res {
+						if c.st != "unsat" {
+							allUnsat = false
+						}
+						if c.t > tmax {
+							tmax = c.t
+						}
+						who = c.who
+					}
+					if allUnsat {
+						r = solveResult{Status: "unsat", Solver: fmt.Sprintf("case-split(%d cubes over call bindings)/%s", n, who), Time: r.Time + tmax}
+					}
+				}
+			}
 			results[k] = &obResult{Name: it.Name, Class: it.Class, Func: j.vc.Name, Desc: it.Desc, Status: r.Status, Solver: r.Solver,
 				Time: r.Time, Agree: r.Agree, Size: len(q), Output: r.Output, vc: j.vc, index: j.index}
 		}(k, j)
